@@ -139,6 +139,8 @@ def describe(layout):
         flat = np.ascontiguousarray(arr).reshape(-1)
         if arr.dtype.kind == "c":
             out["data"] = [[x.real, x.imag] for x in flat.tolist()]
+        elif arr.dtype.kind in "Mm":
+            out["data"] = flat.view(np.int64).tolist()   # ticks since the epoch in the dtype's unit (JSON-able, NaT = int64 min)
         else:
             out["data"] = flat.tolist()
         return out
